@@ -924,6 +924,11 @@ class _EvalBuilder(_Builder):
             s = self._fold_call(s)
             if s[0] != "call":
                 return s
+            if not self.pure and i.auto_inline and s[1][0] == "call" and s[1][1][0] == "n" and all(a[0] == "c" for a in s[1][2]) and not s[1][3]:
+                # F(consts)(args): a factory taken from a table of the module; its result (a closure) is what gets applied
+                inner = self._maybe_inline(s[1], n)
+                if inner is not None and inner[0] == "opaque":
+                    s = ("call", inner, s[2], s[3])
             if not self.pure:
                 if i.force_bool_kwargs and any(k in i.force_bool_kwargs for k, _ in s[3]):
                     s = ("call", s[1], s[2], tuple((k, C(i.truth_sym(v)) if k in i.force_bool_kwargs else v) for k, v in s[3]))
@@ -1311,6 +1316,14 @@ class _EvalBuilder(_Builder):
             return None
         if fn.args.kwarg:
             return None
+        # the expanded form of the helper (its own helpers inlined, nested single-return defs read as lambdas)
+        try:
+            idx = [x for x in i.mod.defs[qual]].index(fn)
+            ex = i.mod.func(qual, idx) if idx == 0 or len(i.mod.defs[qual]) > idx else fn
+            if isinstance(ex, ast.FunctionDef):
+                fn = ex
+        except Exception:
+            pass
         return (i.mod, fn)
 
 
